@@ -448,7 +448,7 @@ class Mutator:
         kind = r.choice(["weird_expr", "weird_expr", "weird_expr", "wrap_expr", "wrap_expr", "rename", "rename", "arity", "binop",
                          "cmpop", "del_stmt", "dup_stmt", "swap_stmt", "wrap_stmt", "wrap_stmt", "ins_stmt", "ins_stmt", "ins_stmt",
                          "early_return", "annot", "annot", "ret_annot", "sig", "swap_expr", "into_nested", "dup_use", "deco",
-                         "subscript_target", "lin_arg"])
+                         "subscript_target", "lin_arg", "to_comptime", "to_comptime", "to_comptime"])
         if kind == "weird_expr" and exprs:
             slot = r.choice(exprs)
             w = ast.parse(r.choice(WEIRD_EXPRS), mode="eval").body
@@ -589,6 +589,22 @@ class Mutator:
                           "guppy(power=True)", "guppy(unitary=1)", "guppy(zz=True)", "guppy.comptime(unitary=True)", "guppy.declare(dagger=True)",
                           "guppy.overload()", "guppy.struct", "guppy()", "guppy.comptime()"])
             fd.decorator_list = [ast.parse(d, mode="eval").body]
+        elif kind == "to_comptime":
+            # the same body traced by CPython instead of checked: calls of Guppy functions go through `trace_call`
+            # (argument conversion, comptime arguments, borrowed arguments, overloads) - a path of its own
+            fd.decorator_list = [ast.parse(r.choice(["guppy.comptime", "guppy.comptime", "guppy.comptime()", "guppy.comptime(unitary=True)"]),
+                                           mode="eval").body]
+            if calls and r.random() < 0.5:
+                # and make one call argument a traced value / a Python value of another kind
+                c = r.choice(calls)
+                if c.args:
+                    i = r.randrange(len(c.args))
+                    t = r.choice(["nat({})", "int({})", "float({})", "bool({})", "({}, {})", "[{}]", "{} + 1", "comptime({})", "array({})",
+                                  "str({})", "-{}", "({} if True else {})", "None"])
+                    try:
+                        c.args[i] = ast.parse(t.replace("{}", ast.unparse(c.args[i])), mode="eval").body
+                    except SyntaxError:
+                        return None
         elif kind == "subscript_target" and stmts_lists:
             # turn an assignment target into a subscript / attribute / starred / tuple target
             asg = [n for n in ast.walk(fd) if isinstance(n, (ast.Assign, ast.AugAssign, ast.AnnAssign, ast.For))]
